@@ -108,7 +108,7 @@ var mutations = []mutation{
 
 func TestClientReserve(t *testing.T) {
 	name := t.Name()
-	hx.Check(t, 8000, 300000, 0, func(rt *rapid.T) {
+	hx.Check(t, 8000, 400000, 0, func(rt *rapid.T) {
 		r := reply{MsgType: "STATUS", Status: "OK", HasRsvp: true, ExpireOff: 3600, Voucher: "valid", Signer: "relay", VRelay: "relay", VPeer: "self", VExpOff: 3600, Limit: "normal",
 			status: pbv2.Status_OK.Enum(), mtype: pbv2.HopMessage_STATUS}
 		nm := rapid.SampledFrom([]int{0, 1, 1, 1, 1, 2, 2}).Draw(rt, "nmut")
